@@ -863,7 +863,8 @@ def stepWasm (st : WState) (line : String) : WState × String :=
       | none => (st, "bad-op")
     | "dump" => (st, fmtDump app)
     | "rawhash" => (st, "!")
-    | "rawdump" => (st, "raw" ++ fmtRecords (Flat.flatten app.ch))
+    -- `raw[…]` only for a state that meets the hypotheses of the flat-store theorems (C01.flat_store_*, equal_bytes_equal_state)
+    | "rawdump" => (st, (if Flat.wfCheck app.ch then "raw" else "raw-not-wf") ++ fmtRecords (Flat.flatten app.ch))
     | "nondet" => (st, "!")       -- verdict slot of slice wasm-bech-mix (implementation-only)
     | "trace" =>
       (setApp st { app with trace := [] }, "trace[" ++ " || ".intercalate app.trace ++ "]")
